@@ -3,7 +3,7 @@
 import random
 
 from .. import boot
-from ..result import Result, h64
+from ..result import Result, h64, keep_going
 
 fsmsim = None  # imported after boot.init()
 
@@ -299,7 +299,7 @@ def run_random(spec, res, sim):
     rng = random.Random(spec['seed'])
     reported = set()
     n = 0
-    while res.elapsed() < spec['budget']:
+    while keep_going(res, spec):
         raw = rng.random() < 0.5
         ops = alphabet(raw=raw)
         weights = [6 if o[0] == 'complete' else (3 if o[0] in ('submit', 'poll') else 1) for o in ops]
